@@ -402,3 +402,29 @@ v('c17-iter-backwards', 'C17', TL, "        curr = end[2]\n        while curr is
 v('c17-first-is-last', 'C17', M, "            return next(iter(self))", "            return next(reversed(self))", 'fire', 'C17-ENDS', 'QuerySet.first returns the last element')
 v('c17-clear-override', 'C17', TL, "    def __len__(self):\n        return len(self.map)", "    def clear(self):\n        self.map = {}\n\n    def __len__(self):\n        return len(self.map)", 'fire', 'C17-MIXINS', 'clear() overridden without resetting the list')
 v('c17-silent-iter-rename', 'C17', TL, "        end = self.end\n        curr = end[2]\n        while curr is not end:\n            yield curr[0]\n            curr = curr[2]", "        sentinel = self.end\n        node = sentinel[2]\n        while node is not sentinel:\n            yield node[0]\n            node = node[2]", 'silent', '', 'renamed locals in __iter__')
+
+
+# ---------------------------------------------------------------- C16
+v('c16-no-ring-guard', 'C16', M, """                if inst is first:
+                    break
+""", """                pass
+""", 'fire', 'C16-RING', 'ring guard dropped: a closed ring is walked for ever')
+v('c16-filter-opposite-phrase', 'C16', M,
+  "first_filt = lambda sel: not navigate_one(sel).nav(metaclass.kind, rel_id, phrase)()",
+  "first_filt = lambda sel: not navigate_one(sel).nav(metaclass.kind, rel_id, other_phrase)()", 'fire', 'C16-CHAINS',
+  'heads are filtered across the phrase that is also followed: every chain collapses to its last member')
+v('c16-no-membership-test', 'C16', M, """                if inst in set_of_instances:
+                    yield inst
+""", """                yield inst
+""", 'fire', 'C16-TERM', 'instances outside the given set are returned')
+v('c16-any-association', 'C16', M, """        if link.rel_id != rel_id:
+            continue
+
+        if link.phrase == phrase:""", """        if link.phrase == phrase:""", 'fire', 'C16-', 'the opposite phrase is taken from another reflexive association')
+v('c16-empty-not-special', 'C16', M, """    if not set_of_instances.first:
+        return QuerySet()
+""", """    if not len(set_of_instances):
+        return QuerySet()
+""", 'silent', '', 'emptiness tested by length instead of by the first member')
+v('c16-eager-sequence', 'C16', M, "    return QuerySet(sequence_generator())", "    return QuerySet(list(sequence_generator()))", 'silent', '',
+  'the sequence is collected eagerly')
